@@ -47,6 +47,11 @@ fn scripts(quick: bool) -> Vec<(Vec<(usize, Step)>, usize)> {
         push_all(&pending, s, 1);
         push_all(&clearing, s, e);
     }
+    // take / drop addressed to the lane while a sync is served (the entries go one by one)
+    let dropping = vec![link("m"), act(&[&a1, &a2, &upd(3, 5)]), cmd("m", "@drop(1)"), cmd("m", "@take(1)")];
+    for s in &syncers {
+        push_all(&dropping, s, e);
+    }
     for s in &vsyncers {
         push_all(&stream_val, s, e);
     }
